@@ -59,9 +59,22 @@ def unwinding_only(rec):
     return bool(f) and all("unwinding assertion" in (c["description"] or "") for c in f)
 
 
+MARKER = "VERIF-MUST-PANIC"
+
+
 def classify(rec):
     """-> one of ok, vacuous, fail, inconclusive"""
     st = rec["status"]
+    if rec.get("must_panic"):
+        # documented-panic harness: the only acceptable outcome is a failure in which the
+        # marker after the call is NOT among the failed checks (every path panicked before it)
+        if st == "fail" and rec["failed"] and not unwinding_only(rec):
+            if any(MARKER in (c["description"] or "") for c in rec["failed"]):
+                return "fail"
+            return "ok"
+        if st == "pass":
+            return "vacuous"  # nothing panicked and marker unreachable: assumptions unsatisfiable
+        return "inconclusive"
     if st == "pass":
         bad = [c for c in rec["covers"] if c["status"] != "Satisfied"]
         if bad:
@@ -83,7 +96,7 @@ def gen_playback_test(top, profile, h, log_path):
     cmd = ["cargo", "kani", "--no-default-features", "--features", kanirun.FEATURES[profile],
            "--harness", "%s::%s" % (kanirun.fqmod(h), h.name), "--exact",
            "--output-format", "terse", "-Z", "unstable-options", "-Z", "stubbing",
-           "-Z", "concrete-playback", "--concrete-playback=print",
+           "-Z", "concrete-playback", "--concrete-playback=print", "--no-assertion-reach-checks",
            "--harness-timeout", "%ds" % tier_timeout("thorough"),
            "--target-dir", target]
     if profile == "k64r":
@@ -93,7 +106,7 @@ def gen_playback_test(top, profile, h, log_path):
     with open(log_path, "a") as fh:
         fh.write("\n$ " + " ".join(cmd) + "\n" + p.stdout[-20000:])
     tests = re.findall(r"```\n(.*?)```", p.stdout, re.S)
-    tests = [t for t in tests if "concrete_playback_run" in t]
+    tests = [t for t in tests if "concrete_playback_run" in t and "Check for `cover`" not in t]
     return tests
 
 
@@ -102,7 +115,7 @@ def nativeize(test_src):
             .replace(" vec![", " alloc::vec!["))
 
 
-def run_playback(profile, harness_file, support, tests, log_path, release=False):
+def run_playback(profile, harness_file, support, tests, log_path, release=False, need_text=None):
     """Splice tests into a fresh derived copy (dev-deps kept) and run natively.
     Returns dict testname -> 'failed'|'passed'|'error'."""
     # inject: copy with test code appended to the harness file
@@ -124,19 +137,20 @@ def run_playback(profile, harness_file, support, tests, log_path, release=False)
     res = {}
     try:
         crate = os.path.join(top, "crate")
-        # restore dev-dependencies (the crate's own cfg(test) code needs them)
-        with open(os.path.join(derive.REPO, "Cargo.toml")) as fh:
-            txt = fh.read()
-        out, skip = [], False
-        for line in txt.splitlines():
-            s = line.strip()
-            if s.startswith("["):
-                skip = s == "[[bench]]"
-            if not skip:
-                out.append(line)
-        out += ["", "[workspace]", "", "[lints.rust]", 'unexpected_cfgs = { level = "allow" }']
-        with open(os.path.join(crate, "Cargo.toml"), "w") as fh:
-            fh.write("\n".join(out) + "\n")
+        # The crate's own #[cfg(test)] modules are disabled in the replay copy: they need the
+        # dev-dependencies and (k8) do not compile under narrowing; the playback tests are #[test]
+        # functions inside the injected harness module and do not depend on them.
+        for dp, _dn, fns in os.walk(os.path.join(crate, "src")):
+            for fn in fns:
+                if not fn.endswith(".rs") or fn.startswith("__verif_"):
+                    continue
+                fp = os.path.join(dp, fn)
+                with open(fp) as fh:
+                    txt = fh.read()
+                t2 = txt.replace("#[cfg(test)]", "#[cfg(any())]").replace("#[cfg(all(test,", "#[cfg(all(any(),")
+                if t2 != txt:
+                    with open(fp, "w") as fh:
+                        fh.write(t2)
         names = re.findall(r"fn (kani_concrete_playback_[A-Za-z0-9_]+)", "\n".join(tests))
         for nm in names:
             cmd = ["cargo", "kani", "playback", "-Z", "concrete-playback", "--no-default-features",
@@ -150,7 +164,10 @@ def run_playback(profile, harness_file, support, tests, log_path, release=False)
             with open(log_path, "a") as fh:
                 fh.write("\n$ " + " ".join(cmd) + "\n" + p.stdout[-20000:])
             if re.search(r"test result: FAILED", p.stdout) and re.search(r"%s \.\.\. FAILED" % nm, p.stdout):
-                res[nm] = "failed"
+                if need_text and need_text not in p.stdout:
+                    res[nm] = "passed"  # it panicked, but at the documented site, not at the marker
+                else:
+                    res[nm] = "failed"
             elif re.search(r"%s \.\.\. ok" % nm, p.stdout):
                 res[nm] = "passed"
             else:
@@ -166,14 +183,15 @@ def replay_failure(prop, top, profile, h, rec, log_path):
     tests = gen_playback_test(top, profile, h, log_path)
     os.makedirs(os.path.join(REPLAY_DIR, prop), exist_ok=True)
     path = os.path.join(REPLAY_DIR, prop, h.name + ".replay.rs")
-    header = ("// replay for property %s harness %s profile %s\n// harness-file: %s\n// failed: %s\n"
-              % (prop, h.name, profile, os.path.relpath(h.file, VERIF),
+    header = ("// replay for property %s harness %s profile %s\n// harness-file: %s\n// must-panic: %d\n// failed: %s\n"
+              % (prop, h.name, profile, os.path.relpath(h.file, VERIF), 1 if h.must_panic else 0,
                  "; ".join("%s @ %s" % (c["description"], c["location"]) for c in rec["failed"])))
     with open(path, "w") as fh:
         fh.write(header + "\n".join(tests))
     if not tests:
         return None, path
-    res = run_playback(profile, h.file, registry.support_files(profile), tests, log_path)
+    res = run_playback(profile, h.file, registry.support_files(profile), tests, log_path,
+                       need_text=MARKER if h.must_panic else None)
     if any(v == "failed" for v in res.values()):
         return True, path
     if all(v == "passed" for v in res.values()):
@@ -193,7 +211,9 @@ def replay_stored(path):
     tests = re.findall(r"(///.*?\n#\[test\].*?\n}\n)", txt, re.S) or [txt.split("\n", 3)[3]]
     os.makedirs(LOG_DIR, exist_ok=True)
     lp = os.path.join(LOG_DIR, "replay-%s.log" % hname)
-    res = run_playback(profile, os.path.join(VERIF, f.group(1)), registry.support_files(profile), tests, lp)
+    mp = re.search(r"// must-panic: 1", txt) is not None
+    res = run_playback(profile, os.path.join(VERIF, f.group(1)), registry.support_files(profile), tests, lp,
+                       need_text=MARKER if mp else None)
     log("replay result:", res)
     if any(v == "failed" for v in res.values()):
         log("VIOLATION property=%s replay=%s" % (prop, path))
@@ -268,7 +288,7 @@ def check(prop, tier, only=None, seed=0):
                 if c == "ok":
                     oks.append(rec)
                 elif c == "vacuous":
-                    bad = [x["description"] for x in rec["covers"] if x["status"] != "Satisfied"]
+                    bad = [x["description"] for x in rec["covers"] if x["status"] != "Satisfied"] or ["must-panic harness: no path reaches the call"]
                     inconclusive.append({"harness": h.name, "why": "cover not satisfied: %s" % bad})
                     log("INCONCLUSIVE harness=%s vacuity witness not reachable: %s" % (h.name, bad))
                 elif c == "inconclusive":
